@@ -20,10 +20,6 @@ func vLimbsBelow(x *Bignum25519, extra int) bool {
 	return ok
 }
 
-// "reduced" output form of the carrying operations: every limb below 2^bits except limb 0 (64-bit layout:
-// limb 0 may exceed by the folded carry, < 2^bits + 19*2^k) -- stated as below 2^(bits+1)
-func vReducedOut(x *Bignum25519) bool { return vLimbsBelow(x, 1) }
-
 // a == b (mod p), witnessed by a small multiple of p: a - b = k p for some |k| <= 16 (no division for the
 // bit-blaster; the carrying operations fold at most a few multiples of p)
 func vCongruent(a, b vZ) bool {
@@ -36,97 +32,107 @@ func vCongruent(a, b vZ) bool {
 	return ok
 }
 
-// C18: Add is exact limb-wise addition (no wrap) for operands up to 8x the nominal limb size
+// limb_i <= s * 2^bits(i) / 64 for every limb
+func vScaled(x *Bignum25519, s int) bool {
+	ok := true
+	for i := 0; i < vNLimbs; i++ {
+		ok = ok && vLimbLe(x, i, (uint64(s)<<uint(vLimbBits(i)))>>6)
+	}
+	return ok
+}
+
+func vScaledV(x *Bignum25519, v [vNLimbs]int) bool {
+	ok := true
+	for i := 0; i < vNLimbs; i++ {
+		ok = ok && vLimbLe(x, i, (uint64(v[i])<<uint(vLimbBits(i)))>>6)
+	}
+	return ok
+}
+
+// C18: Add is exact limb-wise addition (no wrap) for operands in class
 func vh_C18_Add() {
 	a, b := vFreshFE("a"), vFreshFE("b")
-	vAssume(vLimbsBelow(&a, 3) && vLimbsBelow(&b, 3))
+	vAssume(vScaled(&a, vSAddIn) && vScaled(&b, vSAddIn))
 	var out Bignum25519
 	Add(&out, &a, &b)
 	vReach("Add returned")
 	vAssert(vVal(&out).Eq(vVal(&a).Add(vVal(&b))), "Add: value(out) = value(a) + value(b) exactly")
-	vAssert(vLimbsBelow(&out, 4), "Add: output limbs below 2^(bits+4)")
+	limbwise := true
+	for i := 0; i < vNLimbs; i++ {
+		limbwise = limbwise && out[i] == a[i]+b[i]
+	}
+	vAssert(limbwise && vScaled(&out, 2*vSAddIn), "Add: out_i = a_i + b_i without wrap")
 }
 
-// C18: Sub adds the 2p bias: exact for subtrahend limbs up to the bias limbs (reduced operands), no underflow
+// C18: Sub adds the 2p bias: exact for subtrahend limbs up to the bias limbs, no underflow
 func vh_C18_Sub() {
 	a, b := vFreshFE("a"), vFreshFE("b")
-	vAssume(vLimbsBelow(&a, 2))
-	okb := true
-	for i := 0; i < vNLimbs; i++ {
-		okb = okb && vLimbLe(&b, i, vTwoP(i))
-	}
-	vAssume(okb)
+	vAssume(vScaled(&a, vSSubA) && vScaled(&b, vSSubB))
 	var out Bignum25519
 	Sub(&out, &a, &b)
 	vReach("Sub returned")
 	vAssert(vCongruent(vVal(&out), vVal(&a).Sub(vVal(&b))), "Sub: value(out) == value(a) - value(b) (mod p)")
-	vAssert(vLimbsBelow(&out, 3), "Sub: output limbs below 2^(bits+3)")
+	vAssert(vSubOutOK(&out, &a), "Sub: output limbs <= a_i + 2p_i (+carry); carried limbs below 2^bits")
 }
 
 // C18: SubAfterBasic adds the 4p bias: exact for subtrahend limbs up to the 4p limbs
 func vh_C18_SubAfterBasic() {
 	a, b := vFreshFE("a"), vFreshFE("b")
-	vAssume(vLimbsBelow(&a, 2))
-	okb := true
-	for i := 0; i < vNLimbs; i++ {
-		okb = okb && vLimbLe(&b, i, vFourP(i))
-	}
-	vAssume(okb)
+	vAssume(vScaled(&a, vSSubA) && vScaled(&b, vSSubBAfter))
 	var out Bignum25519
 	SubAfterBasic(&out, &a, &b)
 	vReach("SubAfterBasic returned")
 	vAssert(vCongruent(vVal(&out), vVal(&a).Sub(vVal(&b))), "SubAfterBasic: value(out) == value(a) - value(b) (mod p)")
-	vAssert(vLimbsBelow(&out, 3), "SubAfterBasic: output limbs below 2^(bits+3)")
+	if vSSubAfterOut == 0 {
+		vAssert(vScaled(&out, vSReduced), "SubAfterBasic: output reduced (this layout carries)")
+	} else {
+		vAssert(vScaled(&out, vSSubA+vSSubAfterOut), "SubAfterBasic: output limbs <= a-bound + 4p")
+	}
 }
 
 func vh_C18_AddAfterBasic() {
 	a, b := vFreshFE("a"), vFreshFE("b")
-	vAssume(vLimbsBelow(&a, 3) && vLimbsBelow(&b, 3))
+	vAssume(vScaled(&a, vSAddIn) && vScaled(&b, vSAddIn))
 	var out Bignum25519
 	AddAfterBasic(&out, &a, &b)
 	vReach("AddAfterBasic returned")
 	vAssert(vCongruent(vVal(&out), vVal(&a).Add(vVal(&b))), "AddAfterBasic: value(out) == value(a) + value(b) (mod p)")
-	vAssert(vLimbsBelow(&out, 4), "AddAfterBasic: output limbs below 2^(bits+4)")
+	if vAddAfterCarries {
+		vAssert(vScaled(&out, vSReduced), "AddAfterBasic: output reduced (this layout carries)")
+	} else {
+		vAssert(vScaled(&out, 2*vSAddIn), "AddAfterBasic: output limbs <= sum of the operand bounds")
+	}
 }
 
 // C18: the carrying forms return a reduced representation of the exact residue
 func vh_C18_AddReduce() {
 	a, b := vFreshFE("a"), vFreshFE("b")
-	vAssume(vLimbsBelow(&a, 3) && vLimbsBelow(&b, 3))
+	vAssume(vScaled(&a, vSAddIn) && vScaled(&b, vSAddIn))
 	var out Bignum25519
 	AddReduce(&out, &a, &b)
 	vReach("AddReduce returned")
 	vAssert(vCongruent(vVal(&out), vVal(&a).Add(vVal(&b))), "AddReduce: value(out) == value(a) + value(b) (mod p)")
-	vAssert(vReducedOut(&out), "AddReduce: output reduced")
+	vAssert(vScaled(&out, vSReduced), "AddReduce: output reduced")
 }
 
 func vh_C18_SubReduce() {
 	a, b := vFreshFE("a"), vFreshFE("b")
-	vAssume(vLimbsBelow(&a, 2))
-	okb := true
-	for i := 0; i < vNLimbs; i++ {
-		okb = okb && vLimbLe(&b, i, vFourP(i))
-	}
-	vAssume(okb)
+	vAssume(vScaled(&a, vSSubA) && vScaled(&b, vSSubBAfter))
 	var out Bignum25519
 	SubReduce(&out, &a, &b)
 	vReach("SubReduce returned")
 	vAssert(vCongruent(vVal(&out), vVal(&a).Sub(vVal(&b))), "SubReduce: value(out) == value(a) - value(b) (mod p)")
-	vAssert(vReducedOut(&out), "SubReduce: output reduced")
+	vAssert(vScaled(&out, vSReduced), "SubReduce: output reduced")
 }
 
 func vh_C18_Neg() {
 	a := vFreshFE("a")
-	oka := true
-	for i := 0; i < vNLimbs; i++ {
-		oka = oka && vLimbLe(&a, i, vTwoP(i))
-	}
-	vAssume(oka)
+	vAssume(vScaled(&a, vSSubB))
 	var out Bignum25519
 	Neg(&out, &a)
 	vReach("Neg returned")
 	vAssert(vCongruent(vVal(&out).Add(vVal(&a)), vZi(0)), "Neg: value(out) + value(a) == 0 (mod p)")
-	vAssert(vReducedOut(&out), "Neg: output reduced")
+	vAssert(vScaled(&out, vSReduced), "Neg: output reduced")
 }
 
 // C18: parsing ignores bit 255 and yields reduced limbs
@@ -136,14 +142,14 @@ func vh_C18_Expand() {
 	Expand(&out, b)
 	vReach("Expand returned")
 	vAssert(vVal(&out).Eq(vZle(b).Mod(vZi(1).Shl(255))), "Expand: value = low 255 bits of the little-endian integer")
-	vAssert(vLimbsBelow(&out, 0), "Expand: limbs below 2^bits")
+	vAssert(vScaled(&out, 64), "Expand: limbs below 2^bits")
 }
 
 // C18: serialisation returns the unique canonical value below p for every representation with limbs up
 // to 4x the nominal size (includes p, p+1, 2p-1, 2^255-1 and all unreduced outputs of Mul/Square/Add/Sub)
 func vh_C18_Contract() {
 	a := vFreshFE("a")
-	vAssume(vLimbsBelow(&a, 2))
+	vAssume(vScaled(&a, vSContract))
 	out := make([]byte, 32)
 	Contract(out, &a)
 	vReach("Contract returned")
